@@ -48,7 +48,7 @@ def build(rng, facts, name):
     if rng.random() < 0.2: b.kreweight("src", Fraction(1, 2))
     j0 = b.emit("kobs src")
     omit = rng.random() < 0.4
-    pre = "".join("%02x" % rng.getrandbits(8) for _ in range(rng.choice([0, 0, 5, 64, 200])))
+    pre = "".join("%02x" % rng.getrandbits(8) for _ in range(rng.choice([0, 0, 5, 64, 200, rng.randint(1, 40), rng.randint(1, 40)])))
     b.emit("kenc e src %d%s" % (omit, (" " + pre) if pre else ""), "ok")
     b.emit("kobs src", ("same", j0))                                   # encoding does not change the observable state
     if pre: b.emit("bdrop e e %d" % (len(pre) // 2), "ok")
